@@ -230,3 +230,140 @@ pub fn c16(tier: &str) -> ! {
     rep.cov("rule", json!("one evaluation = one torn image: a prefix of the filesystem-operation log ending in a write, that write cut at a length from {every length for writes <= 64 B; 1,2,6,7,8,half,len-1 and +-1 around each 32 KiB boundary otherwise}; recovered and checked like C02 (contents = acknowledged state, the torn operation absent or complete, never partial; probe writes acknowledged after recovery are present after the next clean reopen). distinct_nontrivial = distinct torn images by content hash"));
     rep.finish()
 }
+
+// ------------------------------------------------------------------------------------------------
+// C08: single injected I/O failure at every position
+// ------------------------------------------------------------------------------------------------
+
+pub fn run_faults(rep: &mut Report, label: &str, histories: Vec<History>, classes: u32, budget: Duration) {
+    use crate::faultx::*;
+    use crate::shm::*;
+    use std::sync::Arc;
+    let only = std::env::var("RDBCHECK_ONLY").ok();
+    let histories: Vec<History> = histories.into_iter().filter(|h| only.as_ref().map(|o| h.name.contains(o.as_str())).unwrap_or(true)).collect();
+    if histories.is_empty() {
+        return;
+    }
+    let t0 = Instant::now();
+    let shm = Arc::new(Shm::new(1 << 16, 16 << 20));
+    let hs = Arc::new(histories.clone());
+    let hs2 = Arc::clone(&hs);
+    let shm2 = Arc::clone(&shm);
+    let (capped, machinery) = pool(hs.len(), workers(), &shm, Some(Instant::now() + budget), move |j| fault_job(&hs2[j], classes, &shm2));
+    for m in machinery {
+        rep.machinery.push(format!("{}: {}", label, m));
+    }
+    let (found, m2) = parse_found(&shm);
+    for m in m2 {
+        rep.machinery.push(format!("{}: {}", label, m));
+    }
+    let mut sigs: Vec<String> = vec![];
+    for (tag, data) in shm.records() {
+        if tag == b'S' {
+            sigs.push(String::from_utf8_lossy(&data).to_string());
+        }
+    }
+    sigs.sort();
+    // validate the first finding per clause by re-running its injection twice
+    let mut seen: std::collections::BTreeSet<String> = Default::default();
+    let mut validated = 0u64;
+    let mut observations: std::collections::BTreeMap<String, u64> = Default::default();
+    for f in found.iter() {
+        if !f.clause.starts_with("C08.") {
+            *observations.entry(f.clause.clone()).or_default() += 1;
+            continue;
+        }
+        if seen.insert(f.clause.clone()) {
+            if let (Some(i), Some(mode)) = (f.point["failing_call_index"].as_u64(), f.point["mode"].as_str()) {
+                let h = histories.iter().find(|h| h.name == f.history).unwrap();
+                let inj = Injection { at_call: i, sticky: mode == "sticky", classes };
+                let again = |inj: Injection| -> Option<String> {
+                    // isolated: an injection may abort the process
+                    let shm = Shm::new(1 << 4, 1 << 16);
+                    let pid = unsafe { libc::fork() };
+                    if pid == 0 {
+                        let (r, o) = one_injection(h, Some(inj), classes);
+                        let c = match (r.and_then(|r| r.violation), o) {
+                            // same precedence as fault_job: an oracle violation wins
+                            (Some((c, _)), _) => c,
+                            (None, Some(crate::run::Outcome::Ok)) => "none".to_string(),
+                            (None, Some(crate::run::Outcome::Panic { bg, .. })) => if bg { "C08.bg_panic".into() } else { "C08.panic".into() },
+                            (None, Some(crate::run::Outcome::Deadlock(_))) | (None, Some(crate::run::Outcome::StepBound)) => "C08.hang".into(),
+                            _ => "other".into(),
+                        };
+                        shm.push_record(b'R', c.as_bytes());
+                        unsafe { libc::_exit(0) };
+                    }
+                    let mut st: libc::c_int = 0;
+                    unsafe { libc::waitpid(pid, &mut st, 0) };
+                    shm.records().into_iter().find(|(t, _)| *t == b'R').map(|(_, d)| String::from_utf8_lossy(&d).to_string())
+                };
+                let a = again(inj.clone());
+                let b = again(inj);
+                if a.as_deref() == Some(f.clause.as_str()) && b.as_deref() == Some(f.clause.as_str()) {
+                    validated += 1;
+                } else {
+                    rep.machinery.push(format!("{}: finding {} at {} did not reproduce: {:?} / {:?}", label, f.clause, f.point, a, b));
+                }
+            }
+        }
+        if rep.findings.len() < 1000 {
+            let h = histories.iter().find(|h| h.name == f.history);
+            let site = f.point["call_site"].as_str().unwrap_or("?").to_string();
+            let mode = f.point["mode"].as_str().unwrap_or("?").to_string();
+            let mut ops = f.ops.clone();
+            ops.push(format!("fault {} at {}", mode, site));
+            rep.findings.push(Finding {
+                clause: f.clause.clone(),
+                detail: f.detail.clone(),
+                ops,
+                artefact: json!({"explorer": "faultx", "history": h.map(|h| h.describe()), "injection": f.point, "classes": classes}),
+            });
+        } else {
+            rep.extra_violations += 1;
+        }
+    }
+    rep.cov_add("evaluations", shm.get(C_CASES));
+    rep.cov_add("distinct_nontrivial", shm.get(C_NONTRIVIAL));
+    let prev = rep.coverage.get("exhaustive").and_then(|v| v.as_bool()).unwrap_or(true);
+    rep.cov("exhaustive", json!(prev && !capped));
+    rep.cov_push(
+        "runs",
+        json!({
+            "label": label,
+            "histories": histories.len(),
+            "injections_run": shm.get(C_CASES),
+            "injections_whose_fault_fired": shm.get(C_NONTRIVIAL),
+            "distinct_failing_call_sites": sigs,
+            "completed": !capped,
+            "findings": found.len(),
+            "findings_revalidated": validated,
+            "wall_s": (t0.elapsed().as_secs_f64() * 10.0).round() / 10.0,
+        }),
+    );
+    for h in histories.iter().take(2).chain(histories.iter().rev().take(1)) {
+        rep.cov_push("samples", h.describe());
+    }
+    if !observations.is_empty() {
+        rep.cov("observations_belonging_to_other_properties", json!(observations));
+    }
+}
+
+pub fn c08(tier: &str) -> ! {
+    use crate::vfs::class;
+    let mut rep = Report::new("C08", tier, "fault_enumeration");
+    let t = tier == "thorough";
+    if t {
+        run_faults(&mut rep, "covering", covering_histories(&["T300", "T300n", "M2", "M2n"]), class::PROPERTY_SET | class::LIST, budget(tier, 40, 1800));
+        run_faults(&mut rep, "generated<=3", generated_histories(&["T300", "M2n"], 3), class::PROPERTY_SET, budget(tier, 40, 2400));
+        run_faults(&mut rep, "covering+reads", covering_histories(&["M2"]), class::ALL, budget(tier, 40, 1200));
+    } else {
+        run_faults(&mut rep, "covering", covering_histories(&["T300", "M2n"]), class::PROPERTY_SET, budget(tier, 30, 0));
+        run_faults(&mut rep, "generated<=2", generated_histories(&["T300", "M2n"], 2), class::PROPERTY_SET, budget(tier, 20, 0));
+    }
+    rep.assume("a failing call has no effect on the file (fail-before semantics); one fault per execution, either that single call (once) or that call and all later ones of the counted classes (sticky)");
+    rep.assume("counted call classes: create, write/append, rename, remove, open-for-read, size (thorough adds list and, for one configuration, handle reads and flush)");
+    rep.assume("histories executed under the deterministic eager schedule");
+    rep.cov("rule", json!("one evaluation = one re-execution of a history with the i-th filesystem call failing (once or sticky), for every i of the uninjected run; judged: no panic, no hang (also at close); after every operation all keys are read and the non-error results must be explained by one candidate state (Ok writes applied, Err writes applied or not); after disarming the fault the database must reopen and contain a candidate state. distinct_nontrivial = injections whose fault actually fired (the call index was reached)"));
+    rep.finish()
+}
